@@ -50,7 +50,7 @@ void Tag::addReference(const DataArray &reference) {
     if (!util::checkEntityInput(reference, false)) {
         throw UninitializedEntity();
     }
-    backend()->addReference(reference.name());
+    backend()->addReference(reference.id());
 }
 
 
